@@ -1,7 +1,7 @@
 (* C13 -- property theorems only.  Proofs live in C13/Proofs*.v. *)
 From Coq Require Import NArith List Sorted.
 From DV Require Import Base.Outcome Base.Bytes Base.Lex Base.Names C11.Sha C13.Gen C13.Model
-  C13.ProofsBitmap C13.ProofsNames C13.ProofsNsec2 C13.ProofsDeny.
+  C13.ProofsBitmap C13.ProofsNames C13.ProofsNsec2 C13.ProofsDeny C13.ProofsN3c C13.ProofsN3d C13.ProofsN3e.
 Import ListNotations.
 Local Open Scope N_scope.
 
@@ -19,18 +19,13 @@ Theorem C13_nsec_one_per_auth_name : forall apex z dk out,
   zone_sorted z -> generate_nsecs apex dk z = Ok out ->
   (forall n, auth_name apex z n <-> exists r, In r out /\ name_eqb (n_owner r) n = true) /\
   StronglySorted (fun a b => name_eqb (n_owner a) (n_owner b) = false) out.
-Proof.
-  intros apex z dk out Hs Ho. split; [exact (nsec_owners apex z Hs dk out Ho)|].
-  pose proof (nsec_sorted apex z Hs dk out Ho) as S.
-  induction S as [|a l S IH F]; constructor; [exact IH|].
-  eapply Forall_impl; [|exact F]. intros b Hb. apply ProofsGroups.lt_not_eqb. exact Hb.
-Qed.
+Proof. exact nsec_one_per_auth_name. Qed.
 Print Assumptions C13_nsec_one_per_auth_name.
 
 Theorem C13_nsec_sorted_canonical : forall apex z dk out,
   zone_sorted z -> generate_nsecs apex dk z = Ok out ->
   StronglySorted (fun a b => name_cmp (n_owner a) (n_owner b) = Lt) out.
-Proof. intros apex z dk out Hs Ho. exact (nsec_sorted apex z Hs dk out Ho). Qed.
+Proof. exact nsec_sorted_canonical. Qed.
 Print Assumptions C13_nsec_sorted_canonical.
 
 Theorem C13_nsec_closed : forall apex z dk out,
@@ -46,7 +41,7 @@ Theorem C13_nsec_bitmap_exact : forall apex z dk out,
     (b = true <->
      t = 46 \/ t = 47 \/ (dk = true /\ name_eqb (n_owner r) apex = true /\ t = 48) \/
      (has_type z (n_owner r) t /\ (deleg apex z (n_owner r) -> t = 2 \/ t = 43))).
-Proof. intros apex z dk out Hs Ht Ho. exact (nsec_bitmap_exact apex z Hs dk out Ho Ht). Qed.
+Proof. exact nsec_bitmap_exact'. Qed.
 Print Assumptions C13_nsec_bitmap_exact.
 
 Theorem C13_nsec_denies : forall apex z dk out,
@@ -65,8 +60,43 @@ Print Assumptions C13_nsec_no_panic.
 Theorem C13_nsec3_hash_is_rfc5155 : forall n iterations salt,
   c13_hash n iterations salt = rfc5155_IH sha1 salt (wire_abs (canon n)) (N.to_nat iterations) /\
   length (c13_hash n iterations salt) = 20%nat.
-Proof.
-  intros n iterations salt. unfold c13_hash. rewrite nsec3_hash_rfc5155. split; [reflexivity|].
-  destruct (N.to_nat iterations); apply sha1_length.
-Qed.
+Proof. exact nsec3_hash_is_rfc5155. Qed.
 Print Assumptions C13_nsec3_hash_is_rfc5155.
+
+Theorem C13_nsec3_sorted_closed_ring : forall H apex c z out,
+  generate_nsec3s H apex c z = Ok out ->
+  StronglySorted (fun a b => lex_cmp (h_owner a) (h_owner b) = Lt) out /\ out <> [] /\
+  map h_next out = tl (map h_owner out) ++ [hd [] (map h_owner out)].
+Proof. exact nsec3_sorted_closed'. Qed.
+Print Assumptions C13_nsec3_sorted_closed_ring.
+
+Theorem C13_nsec3_one_per_auth_name_and_ent : forall H apex c z out,
+  zone_sorted z -> generate_nsec3s H apex c z = Ok out ->
+  forall x, (exists r, In r out /\ h_owner r = x) <->
+    (exists n, (included apex z (optout_excl c) n \/ ent3 apex z (optout_excl c) n) /\
+               x = nsec3_hash H n (c_iters c) (c_salt c)).
+Proof. exact nsec3_owners'. Qed.
+Print Assumptions C13_nsec3_one_per_auth_name_and_ent.
+
+Theorem C13_nsec3_bitmap_exact : forall H apex c z out, zone_sorted z -> types_ok z ->
+  generate_nsec3s H apex c z = Ok out -> forall r, In r out ->
+  exists n, h_owner r = nsec3_hash H n (c_iters c) (c_salt c) /\
+   ((included apex z (optout_excl c) n /\ forall t,
+       exists b, bm_contains (h_types r) t = Ok b /\
+         (b = true <->
+          (t = 46 /\ (deleg apex z n -> has_type z n 43)) \/
+          (name_eqb n apex = true /\ (t = 51 \/ (c_dnskey c = true /\ t = 48))) \/
+          (has_type z n t /\ (deleg apex z n -> t = 2 \/ t = 43))))
+    \/ (ent3 apex z (optout_excl c) n /\ h_types r = [])).
+Proof. exact nsec3_bitmap_exact'. Qed.
+Print Assumptions C13_nsec3_bitmap_exact.
+
+Theorem C13_nsec3_denies : forall H apex c z out,
+  zone_sorted z -> types_ok z -> generate_nsec3s H apex c z = Ok out ->
+  (forall a b, hashn H c a = hashn H c b -> name_eqb a b = true) ->
+  forall n t, ~ has_type z n t -> t <> 46 ->
+    ~ (name_eqb n apex = true /\ (t = 51 \/ (c_dnskey c = true /\ t = 48))) ->
+    exists r, In r out /\
+      ((h_owner r = hashn H c n /\ bm_contains (h_types r) t = Ok false) \/ h3_covers r (hashn H c n)).
+Proof. exact nsec3_denies. Qed.
+Print Assumptions C13_nsec3_denies.
